@@ -325,7 +325,9 @@ Build == /\ pc = "build"
          /\ pc' = "done"
          /\ UNCHANGED <<c, x, cls, chunks, nextT, running, prog, mask, ret, dfl>>
 
-Next == Classify \/ MakeChunks \/ Start \/ (\E t \in running : Scan(t) \/ Finish(t)) \/ Join \/ Concat \/ Build
+ScanAny == \E t \in running : Scan(t)
+FinishAny == \E t \in running : Finish(t)
+Next == Classify \/ MakeChunks \/ Start \/ ScanAny \/ FinishAny \/ Join \/ Concat \/ Build
 Spec == Init /\ [][Next]_vars
 
 (* ============================== what TLC checks ============================== *)
